@@ -502,7 +502,7 @@ theorem unroll_rp (env : Env) (hse : SafeEnv env) (fuel : Nat) (w e : Ty) (hw : 
   unfold unroll at h
   simp only [] at h
   -- the expected side
-  have hE : ∀ e' s1, (if Sub.isName e then (addCost st 1).bind fun _ s => ofOpt (env.trace fuel e) .other s else .ok e st) = .ok e' s1 →
+  have hE : ∀ e' s1, (if Sub.isName e then (addCost st 1).bind fun _ s => ofOpt (env.trace fuel e) .limit s else .ok e st) = .ok e' s1 →
       safeTy env e' = true := by
     intro e' s1 h1
     split at h1
@@ -516,7 +516,7 @@ theorem unroll_rp (env : Env) (hse : SafeEnv env) (fuel : Nat) (w e : Ty) (hw : 
       | err k => rw [hc] at h1; simp [R.bind] at h1
       | panic q => rw [hc] at h1; simp [R.bind] at h1
     · simp at h1; exact h1.1 ▸ he
-  cases hstep : (if Sub.isName e then (addCost st 1).bind fun _ s => ofOpt (env.trace fuel e) .other s else .ok e st) with
+  cases hstep : (if Sub.isName e then (addCost st 1).bind fun _ s => ofOpt (env.trace fuel e) .limit s else .ok e st) with
   | ok e' s1 =>
     rw [hstep] at h
     simp only [R.bind] at h
@@ -677,7 +677,7 @@ theorem deVecCase_np (env : Env) (hse : SafeEnv env) (vis : Visitor) (fuel : Nat
           split
           · exact NP.err _
           · exact NP.map (iterV_np _ (fun s => rd_np _ (decPrim_onp _) s) _ _)
-      · simp only []
+      · try simp only []
         split
         · split
           · exact NP.err _
